@@ -222,6 +222,7 @@ where
 //@ end
 
 //@ fn impl<V> Memory<V> :: fn set_permissions
+//@ attr #[verifier::loop_isolation(false)]
 //@ rewrite 1 `RC::make_mut(` => `rc_cow::rc_make_mut(` ## R-std-standin: Rc::make_mut replaced by the stand-in of prelude/rc_cow.rs (same argument; the stand-in's body calls the real `Rc::make_mut`)
 //@ rewrite 1 `self.pages .entry(page_address) .or_insert_with(` => `rc_cow::entry_or_insert_with(&mut self.pages, page_address, ` ## R-std-standin: `MAP.entry(K).or_insert_with(F)` replaced by the stand-in of prelude/rc_cow.rs (same map, key and closure; the stand-in's body calls the real `entry` / `or_insert_with`)
 //@ closure 0 || -> (r0: RC<Page<V>>)
@@ -253,12 +254,15 @@ where
         let p1 = self.pages@[page_address];
         assert(self.pages@ =~= pages0.insert(page_address, p1));
         lemma_cells_same_page(pages0, page_address, p1);
+        assert forall|k: u64| #[trigger] page_perm(self.pages@, k) == (if k == page_address { Some(permissions) } else { page_perm(pages0, k) }) by {}
     }
 //@ end
 
 //@ fn impl<V> Memory<V> :: fn backing
 //@ spec
     ensures /*@same*/ r == self.backing,
+//@ enter
+    proof { broadcast use rc_cow::axiom_rc_cloned; }
 //@ end
 
 //@ fn impl<V> Memory<V> :: fn set_backing
